@@ -137,6 +137,32 @@ def grammar_docstrings():
                         yield dict(style=style, sections=list(perm), sep=len(sep), indent=len(indent)), text
 
 
+# layouts of the return section: type on the line of the description / on its own line (with and without a trailing blank) x one or two description lines
+RETURN_LAYOUTS = {
+    "google": ["Returns:\n  int: the result\n", "Returns:\n  Dict[str, int]:\n    the result\n", "Returns:\n  Dict[str, int]: \n    the result\n",
+               "Returns:\n  Dict[str, int]:\n    the result\n    over two lines\n", "Returns:\n  Dict[str, int]: \n    the result\n    over two lines\n", "Returns:\n  the result\n",
+               "Returns:\n  Dict[str, int]:\n"],
+    "numpydoc": ["Returns\n-------\nint\n    the result\n", "Returns\n-------\nDict[str, int] \n    the result\n", "Returns\n-------\nDict[str, int]\n    the result\n    over two lines\n",
+                 "Returns\n-------\nresult : Dict[str, int]\n    the result\n", "Returns\n-------\nDict[str, int]\n"],
+    "rest": [":return: the result\n:rtype: ```Dict[str, int]``` \n", ":returns: the result\n:rtype: Dict[str, int]\n", ":rtype: ```Dict[str, int]```\n:return: the result\n",
+             ":return: the result\n  over two lines\n:rtype: ```Dict[str, int]```\n"],
+}
+
+
+def return_layout_docstrings():
+    for style, layouts in RETURN_LAYOUTS.items():
+        secs = SECTIONS[style]
+        for li, layout in enumerate(layouts):
+            for before in (["header", "params"], ["header"], ["params"], []):
+                for after in ([], ["notes"]):
+                    for sep in ("\n", ""):
+                        for indent in ("", "    "):
+                            text = sep.join([secs[s] for s in before] + [layout] + [secs[s] for s in after])
+                            if indent:
+                                text = "\n".join(indent + l if l else l for l in text.split("\n"))
+                            yield dict(style=style, sections=before + ["returns#%d" % li] + after, sep=len(sep), indent=len(indent)), text
+
+
 # ---- (d) partially documented signatures ---------------------------------------------------------------------
 
 SIG = ["a", "b", "c"]
@@ -341,7 +367,7 @@ def cases(tier, seed):
     for i in range(len(c11.SIGMA_DOC)):
         for j in range(len(c11.SIGMA_DOC)):
             yield dict(kind="doc_block", prefix=[i, j], maxlen=n)
-    gd = list(grammar_docstrings())
+    gd = list(grammar_docstrings()) + list(return_layout_docstrings())
     for lo in range(0, len(gd), 50):
         yield dict(kind="grammar_block", lo=lo, hi=lo + 50)
     pf = list(partial_functions())
@@ -393,7 +419,7 @@ def run(case):
                 outcomes.add("returns")
                 report("docstring", ir, dict(kind="doc_string", string=s), source="tokens")
     elif case["kind"] == "grammar_block":
-        for key, text in list(grammar_docstrings())[case["lo"]: case["hi"]]:
+        for key, text in (list(grammar_docstrings()) + list(return_layout_docstrings()))[case["lo"]: case["hi"]]:
             n += 1
             transitions += 1
             try:
@@ -597,7 +623,7 @@ def describe(tier):
         "parsed as live objects (inspect path); (g) {lay} legal but unusually laid out classes, functions and argparse functions (multi-target and tuple assignments, type comments, nested and decorated definitions, "
         "positional-only/keyword-only, async, line continuation, argparse positionals/nargs/actions/groups) through the AST parsers with and without infer_type; (h) {sq} hand-written SQLAlchemy models (subsets of primary_key / ForeignKey / nullable / default / comment / unique on one column, documented or not, class and Table forms); (e) {j} JSON-schema documents: a property built from "
         "8 types x 7 patterns (word lists, lists with non-letters, a real regex) x 8 further keywords (enum, format, items, $ref, anyOf, bounds, title) x default x description x required; "
-        "a case = one parser input".format(n=3 if tier == "quick" else 4, g=sum(1 for _ in grammar_docstrings()), p=sum(1 for _ in partial_functions()), j=sum(1 for _ in json_schema_documents()), lc=sum(1 for _ in live_classes()), lay=len(LAYOUT_CLASSES) + len(LAYOUT_FUNCTIONS) + len(LAYOUT_ARGPARSE), sq=sum(1 for _ in sqlalchemy_layouts())),
+        "a case = one parser input".format(n=3 if tier == "quick" else 4, g=sum(1 for _ in grammar_docstrings()) + sum(1 for _ in return_layout_docstrings()), p=sum(1 for _ in partial_functions()), j=sum(1 for _ in json_schema_documents()), lc=sum(1 for _ in live_classes()), lay=len(LAYOUT_CLASSES) + len(LAYOUT_FUNCTIONS) + len(LAYOUT_ARGPARSE), sq=sum(1 for _ in sqlalchemy_layouts())),
         bounds=dict(sigma_doc=c11.SIGMA_DOC, sections=list(SECTIONS["rest"]), signature=SIG),
         exhaustive=True,
         assumptions=["shape predicate mc/checks/c14.py:wellformed transcribes the property text; 'doc' may be None at the top level as the declared type says Optional[str]"],
